@@ -154,7 +154,7 @@ def run_case(case):
         if op in ("set", "reject"):
             k = VARS[a % len(VARS)]
             pool = list(m.axes.keys()) + [d for d in NAMES + FRESH if d not in m.axes]
-            n = e % 3 + (1 if op == "reject" else 0)
+            n = e % 4 + (1 if op == "reject" else 0)
             dims = []
             for j in range(n):
                 d = pool[(b + j * (c + 1)) % len(pool)]
